@@ -4,9 +4,11 @@ CONSTANTS
   MaxFragments = 1
   FnScopes = {"def"}
   MaxDepth = 1
+  FixedLines = TRUE
+  FixedFwd = TRUE
   PosMaxLines = 3
   NodesHavePos = TRUE
-  DevOn = {"fwd", "byte", "split"}
+  DevOn = {"byte"}
   YSites = {"oneline"}
   YPads = {"none"}
   YBefore = {0}
